@@ -371,13 +371,26 @@ def is_subsequence(small, big):
     return all(c in it for c in small)
 
 
-def kept_by(site, cps, what):
+_SHUFFLED = {}
+
+
+def shuffled_once(exclude=""):
+    """one fixed permutation of all code points (without those of `exclude`), shared by the sites"""
+    if "all" not in _SHUFFLED:
+        allc = code_points()
+        random.Random(20240611).shuffle(allc)
+        _SHUFFLED["all"] = allc
+    if exclude not in _SHUFFLED:
+        _SHUFFLED[exclude] = [c for c in _SHUFFLED["all"] if c not in exclude] if exclude else _SHUFFLED["all"]
+    return _SHUFFLED[exclude]
+
+
+def kept_by(site, cps, what, exclude=""):
     """site: name -> sanitised name.  The set of characters c that survive, determined on two
     independent batch layouts and then re-checked one character at a time."""
     results = []
     rng = random.Random(20240611)
-    shuffled = cps[:]
-    rng.shuffle(shuffled)
+    shuffled = shuffled_once(exclude)
     for layout, size in ((cps, 8192), (shuffled, 5003)):
         kept = set()
         for chunk in chunks(layout, size):
@@ -456,12 +469,10 @@ def probe_regex(repo):
         out[k] = sorted(kept_by(site, cps, k))
     no_colon = [c for c in cps if c != ":"]
     need(params_of(ML + ":" + MR) == [ML, MR] and params_of("") == [""], "process_parameters: ':' does not separate parameters")
-    keep = kept_by(param_site, no_colon, "param_keep_chars")
+    keep = kept_by(param_site, no_colon, "param_keep_chars", ":")
     out["param_keep_chars"] = sorted(keep)
     # which single characters are passed through as a NUMBER parameter
-    rng = random.Random(7)
-    shuffled = no_colon[:]
-    rng.shuffle(shuffled)
+    shuffled = shuffled_once(":")
     sets = []
     for layout, size in ((no_colon, 4096), (shuffled, 3001)):
         verbatim = set()
@@ -622,6 +633,54 @@ def lex_model(s, cls, dv=False):
     return out
 
 
+def harvest_fragments(path):
+    """(all fragments, the multi-character / pattern-derived ones) from the string constants and
+    regular expressions written in the lexer's source"""
+    import re
+    with open(path, encoding="utf-8") as f:
+        tree = ast.parse(f.read(), filename=path)
+    docstrings = set()
+    for n in ast.walk(tree):
+        if isinstance(n, (ast.Module, ast.FunctionDef, ast.AsyncFunctionDef, ast.ClassDef)) and n.body:
+            b = n.body[0]
+            if isinstance(b, ast.Expr) and isinstance(b.value, ast.Constant) and isinstance(b.value.value, str):
+                docstrings.add(id(b.value))
+    patterns = []
+    for n in ast.walk(tree):
+        if isinstance(n, ast.Call) and isinstance(n.func, ast.Attribute) and n.func.attr in (
+                "compile", "sub", "subn", "match", "search", "fullmatch", "split", "findall", "finditer", "replace",
+                "translate", "maketrans", "strip", "lstrip", "rstrip", "removeprefix", "removesuffix", "startswith", "endswith"):
+            for a in list(n.args) + [k.value for k in n.keywords]:
+                for m in ast.walk(a):
+                    if isinstance(m, ast.Constant) and isinstance(m.value, str) and 0 < len(m.value) <= 400:
+                        patterns.append(m.value)
+    consts = [n.value for n in ast.walk(tree)
+              if isinstance(n, ast.Constant) and isinstance(n.value, str) and id(n) not in docstrings and 0 < len(n.value) <= 12]
+
+    def pieces(p):
+        p = p.replace("\\", "")
+        return [x for x in re.split(r"[.*+?()\[\]|^$]+", p) if 0 < len(x) <= 12]
+
+    frags, special = [], []
+    for c in consts:
+        frags.append(c)
+        if len(c) >= 2 and not c.isalnum():
+            special.append(c)
+        for x in pieces(c):
+            if x != c:
+                frags.append(x)
+    for p in patterns:
+        for x in pieces(p):
+            frags.append(x)
+            special.append(x)
+    special = list(dict.fromkeys(special))
+    # plain words that no string method / pattern mentions (enum values ...): a few are enough
+    word = [f for f in dict.fromkeys(frags) if f.isalnum() and f.isascii() and len(f) > 2 and f not in special]
+    frags = [f for f in dict.fromkeys(frags) if f not in word] + word[:3]
+    need(len(frags) <= 120 and len(special) <= 40, f"lexer.py: too many string constants to probe their combinations ({len(frags)}, {len(special)})")
+    return frags, special
+
+
 def probe_lexer(repo):
     from vyxal import lexer as L
     import vyxal.encoding as E
@@ -674,6 +733,35 @@ def probe_lexer(repo):
             n_cases += 1
             if lex_model(s, cls, True) != impl(s, True):
                 raise Fail(f"lexer: tokenise({s!r}, variables_as_digraphs=True) = {impl(s, True)!r}; the model gives {lex_model(s, cls, True)!r}")
+    # pass C: probing one head character at a time cannot see a pass over the whole text (a
+    # regex substitution before the loop, a str.replace, a post-pass joining tokens ...).  Such a
+    # pass is written with string constants / patterns of lexer.py itself: harvest them, build
+    # strings of 2-3 fragments (every order, with and without filler, outside and inside each
+    # kind of string literal) and require the model with the derived classes to predict tokenise.
+    frags, special = harvest_fragments(L.__file__)
+    delims = [c for c in domain if cls.get(c) == "lex_string_delims"]
+    wraps = [("", ""), ("a", "a")] + [(d, d) for d in delims]
+    n_harvest = 0
+
+    def compare(x):
+        nonlocal n_harvest
+        for pre, post in wraps:
+            s = pre + x + post
+            n_harvest += 1
+            if lex_model(s, cls) != impl(s):
+                raise Fail(f"lexer: tokenise({s!r}) = {impl(s)!r}; the model with the classes read from behaviour gives "
+                           f"{lex_model(s, cls)!r} (string built from constants of lexer.py: something other than the "
+                           "character ladder acts on the program text)")
+    for f in frags:
+        compare(f)
+    for fill in ("", "a", "\n"):
+        for f1 in frags:
+            for f2 in frags:
+                compare(f1 + fill + f2)
+        for f1 in special:
+            for f2 in special:
+                for f3 in special:
+                    compare(f1 + fill + f2 + fill + f3)
     # every other code point is an ordinary character: two batch layouts
     dset = set(domain)
     rest = [c for c in code_points() if c not in dset]
@@ -688,7 +776,8 @@ def probe_lexer(repo):
             want += [("general", c), ("general", "a")]
         need(impl("".join(c + "a" for c in chunk)) == want, "lexer: a character outside the code page is not an ordinary character")
     out = {k: [c for c in domain if cls.get(c) == k] for k in LEX_CLASSES}
-    return {"classes": out, "cases": n_cases, "domain": len(domain), "others_checked": len(rest)}
+    return {"classes": out, "cases": n_cases, "domain": len(domain), "others_checked": len(rest),
+            "harvested_fragments": len(frags), "harvest_cases": n_harvest}
 
 
 # ----------------------------------------------------------------------------------------
